@@ -754,6 +754,35 @@ class Engine:
                 out.append(op[1])
         return out
 
+    def _literal_elements(self, st, source):
+        """elements of an iteration source that is a literal / constant array of at most 8 items, else None"""
+        if source[0] != 'call' or len(source[2]) != 1:
+            return None
+        sb = source[1].rsplit('::', 1)[-1]
+        if sb not in self.ADAPTER_SOURCES:
+            return None
+        a = source[2][0]
+        by_ref = sb in ('iter', 'iter_mut')
+        guard = 0
+        while a[0] in ('ref', 'K', 'der', 'named', 'call') and guard < 8:
+            guard += 1
+            if a[0] == 'named':
+                a = NAMED_CONSTS.get(a[1], ('unk',))
+            elif a[0] == 'call':
+                if a[1].endswith('Deref>::deref') or a[1].endswith('as_slice') or a[1].endswith('::iter'):
+                    a = a[2][0]
+                else:
+                    return None
+            elif a[0] == 'ref' and a[1][0] == 'L':
+                by_ref = True
+                a = self._read_lv(st, a[1])
+            else:
+                by_ref = by_ref or a[0] == 'ref'
+                a = a[1]
+        if a[0] == 'agg' and a[1] == 'array' and 0 < len(a[4]) <= 8:
+            return [(('ref', ('K', x)) if by_ref else x) for _, x in a[4]]
+        return None
+
     def _adapter_call(self, st, fn, fid, t, name, args):
         base = name.rsplit('::', 1)[-1]
         if base not in self.ADAPTER_CONSUMERS or 'Iterator' not in name or not args:
@@ -771,29 +800,30 @@ class Engine:
         uid = next(self.uid)
         marker = ('adapter', uid)
         closures = [s_[1] for s_ in stages if len(s_) == 2] + [clo]
-        # loop variables: everything the closures may assign
-        before = {}
-        lvs = []
-        for c in closures:
-            for lv in self._mut_captures(c):
-                root = lv
-                while root[0] in ('fld', 'idx'):
-                    root = root[1]
-                if root[0] == 'L' and root[1] == fid and lv == root and lv[2] not in before and not fn.local_ty(lv[2]).startswith('&'):
-                    before[lv[2]] = st.frames[fid].get(lv[2])
-                    lvs.append(lv[2])
-        for l in lvs:
-            st.frames[fid][l] = ('lv', marker, l)
-        acc_key = None
-        if base == 'fold':
-            acc_key = 'acc%d' % uid
-            before[acc_key] = args[1]
-            st.frames[fid][acc_key] = ('lv', marker, acc_key)
-        st.epoch += 1
-        st.events.append(('loop_head', fn.name, marker, before))
-        st.events.append(('adapter', base, marker, source, tuple(s_[0] for s_ in stages)))
-        src_base = source[1].rsplit('::', 1)[-1] if source[0] == 'call' else ''
-        elem0 = ('elem', uid)
+        elems = self._literal_elements(st, source) if self.unroll else None
+        acc_key = 'acc%d' % uid if base == 'fold' else None
+        if elems is None:
+            # abstract mode: loop variables are everything the closures may assign
+            before = {}
+            lvs = []
+            for c in closures:
+                for lv in self._mut_captures(c):
+                    root = lv
+                    while root[0] in ('fld', 'idx'):
+                        root = root[1]
+                    if root[0] == 'L' and root[1] == fid and lv == root and lv[2] not in before and not fn.local_ty(lv[2]).startswith('&'):
+                        before[lv[2]] = st.frames[fid].get(lv[2])
+                        lvs.append(lv[2])
+            for l in lvs:
+                st.frames[fid][l] = ('lv', marker, l)
+            if acc_key:
+                before[acc_key] = args[1]
+                st.frames[fid][acc_key] = ('lv', marker, acc_key)
+            st.epoch += 1
+            st.events.append(('loop_head', fn.name, marker, before))
+            st.events.append(('adapter', base, marker, source, tuple(s_[0] for s_ in stages)))
+        elif acc_key:
+            st.frames[fid][acc_key] = args[1]
 
         def finish_exit(s_, value):
             self._write_place(s_, fn, fid, t['dest'], value)
@@ -807,38 +837,21 @@ class Engine:
             return [o]
 
         def call_closure(s_, c, cargs, k):
-            cf = self._closure_fn(c)
-            nfid = next(self.fid)
-            fr = {}
-            s_.frames[nfid] = fr
-            s_.visited[nfid] = set()
-            s_.entered[nfid] = set()
-            ety = cf.local_ty(1)
-            if ety.startswith('&'):
-                fr[-1] = c
-                fr[1] = ('ref', ('L', nfid, -1))
-            else:
-                fr[1] = c
-            for i_, x in enumerate(cargs):
-                fr[2 + i_] = x
-            cid = next(self.cont_id)
-            self.conts[cid] = k
-            s_.stack.append((fn, fid, ('cont', cid), None, cf.name))
-            return [(s_, cf, nfid, 0)]
+            return self.call_value_k(s_, fn, fid, c, cargs, k)
 
-        def consume(s_, elem):
+        def consume(s_, elem, pos, cont):
             if base == 'for_each':
-                return call_closure(s_, clo, [elem], lambda s2, v: backedge(s2))
+                return call_closure(s_, clo, [elem], lambda s2, v: cont(s2))
             if base in ('any', 'all', 'position'):
                 def k(s2, v):
                     out = []
                     for s3, truth in self._fork_bool(s2, v):
                         stop = truth if base in ('any', 'position') else (not truth)
                         if stop:
-                            res = C(base == 'any') if base != 'position' else mk_adt(OPTION, 'Some', [('0', ('pos', uid))])
+                            res = C(base == 'any') if base != 'position' else mk_adt(OPTION, 'Some', [('0', pos)])
                             out.extend(finish_exit(s3, res))
                         else:
-                            out.extend(backedge(s3))
+                            out.extend(cont(s3))
                     return out
                 return call_closure(s_, clo, [elem], k)
             if base == 'find':
@@ -848,49 +861,59 @@ class Engine:
                         if truth:
                             out.extend(finish_exit(s3, mk_adt(OPTION, 'Some', [('0', elem)])))
                         else:
-                            out.extend(backedge(s3))
+                            out.extend(cont(s3))
                     return out
                 return call_closure(s_, clo, [('ref', ('K', elem))], k)
             if base == 'fold':
                 def k(s2, v):
                     s2.frames[fid][acc_key] = v
-                    return backedge(s2, v)
+                    return cont(s2) if elems is not None else backedge(s2, v)
                 return call_closure(s_, clo, [s_.frames[fid][acc_key], elem], k)
             return None
 
-        def stage(s_, i, elem):
+        def stage(s_, i, elem, pos, cont):
             if i == len(stages):
-                return consume(s_, elem)
+                return consume(s_, elem, pos, cont)
             sg = stages[i]
             if sg[0] in ('cloned', 'copied'):
-                return stage(s_, i + 1, ('der', elem))
+                return stage(s_, i + 1, ('der', elem) if not (elem[0] == 'ref' and elem[1][0] == 'K') else elem[1][1], pos, cont)
             if sg[0] == 'enumerate':
-                return stage(s_, i + 1, mk_tuple(('pos', uid), elem))
+                return stage(s_, i + 1, mk_tuple(pos, elem), pos, cont)
             if sg[0] in ('rev', 'by_ref'):
-                return stage(s_, i + 1, elem)
+                return stage(s_, i + 1, elem, pos, cont)
             if sg[0] == 'map':
-                return call_closure(s_, sg[1], [elem], lambda s2, v: stage(s2, i + 1, v))
+                return call_closure(s_, sg[1], [elem], lambda s2, v: stage(s2, i + 1, v, pos, cont))
             if sg[0] == 'filter':
                 def k(s2, v):
                     out = []
                     for s3, truth in self._fork_bool(s2, v):
-                        out.extend(stage(s3, i + 1, elem) if truth else backedge(s3))
+                        out.extend(stage(s3, i + 1, elem, pos, cont) if truth else cont(s3))
                     return out
                 return call_closure(s_, sg[1], [('ref', ('K', elem))], k)
-            return backedge(s_)
+            return cont(s_)
 
+        def exit_value(s_):
+            if base == 'for_each':
+                return UNIT
+            if base in ('any', 'all'):
+                return C(base == 'all')
+            if base in ('find', 'position'):
+                return mk_adt(OPTION, 'None', [])
+            return s_.frames[fid][acc_key] if elems is not None else ('lv', marker, acc_key)
+
+        if elems is not None:
+            if any(s_[0] == 'rev' for s_ in stages):
+                elems = list(reversed(elems))
+
+            def run_from(s_, i):
+                if i == len(elems):
+                    return finish_exit(s_, exit_value(s_))
+                return stage(s_, 0, elems[i], C(i), lambda s2: run_from(s2, i + 1))
+            return run_from(st, 0)
         body = st.copy()
-        work = stage(body, 0, elem0) or []
+        work = stage(body, 0, ('elem', uid), ('pos', uid), backedge) or []
         # the adapter is over: loop variables keep their arbitrary values
-        if base == 'for_each':
-            exit_val = UNIT
-        elif base in ('any', 'all'):
-            exit_val = C(base == 'all')
-        elif base in ('find', 'position'):
-            exit_val = mk_adt(OPTION, 'None', [])
-        else:
-            exit_val = ('lv', marker, acc_key)
-        return list(work) + finish_exit(st, exit_val)
+        return list(work) + finish_exit(st, exit_value(st))
 
     def _find_model(self, name, ce):
         m = self.models.get(name)
@@ -1768,7 +1791,33 @@ DEFAULT_MODELS = {
     '<T as std::convert::Into<U>>::into': m_from_into,
 }
 
+def m_slice_get(eng, st, args, info):
+    """<[T]>::get(i) on a constant array with a constant index"""
+    a, i = args[0], args[1]
+    guard = 0
+    while a[0] in ('ref', 'K', 'der', 'named', 'call') and guard < 8:
+        guard += 1
+        if a[0] == 'named':
+            a = NAMED_CONSTS.get(a[1], ('unk',))
+        elif a[0] == 'call':
+            if a[1].endswith('Deref>::deref') or a[1].endswith('as_slice'):
+                a = a[2][0]
+            else:
+                return None
+        elif a[0] == 'ref' and a[1][0] == 'L':
+            a = eng._read_lv(st, a[1])
+        else:
+            a = a[1]
+    if a[0] == 'agg' and a[1] == 'array' and is_const(i) and isinstance(i[1], int):
+        for n, x in a[4]:
+            if n == str(i[1]):
+                return [(st, mk_adt(OPTION, 'Some', [('0', ('ref', ('K', x)))]))]
+        return [(st, mk_adt(OPTION, 'None', []))]
+    return None
+
+
 PATTERN_MODELS = [
+    (re.compile(r'^core::slice::<impl \[T\]>::get(::<.*>)?$'), m_slice_get),
     (re.compile(r'^core::num::<impl \w+>::trailing_zeros$'), m_int_method('trailing_zeros')),
     (re.compile(r'^core::num::<impl \w+>::count_ones$'), m_int_method('count_ones')),
     (re.compile(r'^core::num::<impl \w+>::wrapping_add$'), m_int_method('wrapping_add')),
